@@ -1,8 +1,9 @@
 #!/bin/sh
-# usage: tools_seed_wt.sh <name>   -> creates /tmp/seed/<name>, a detached worktree of /repo HEAD
+# usage: tools_seed_wt.sh <name> [basedir]  -> creates <basedir>/<name> (default /tmp/seed), a detached worktree of /repo HEAD
 set -e
-d=/tmp/seed/$1
-mkdir -p /tmp/seed
+base=${2:-/tmp/seed}
+d=$base/$1
+mkdir -p $base
 git -C /repo worktree add -q --detach "$d" HEAD
 cp /repo/src/sedpack/_sedpack_rs*.so "$d/src/sedpack/"
 mkdir -p "$d/seed"
